@@ -282,6 +282,11 @@ func (am *AccountingManager) StartSession(session *AccountingSession) error {
 	ctx, cancel := context.WithTimeout(am.ctx, 5*time.Second)
 	defer cancel()
 
+	// Persist session for crash recovery before the server can accept the
+	// Start: a crash right after the Start was accepted must leave a copy
+	// behind, or no restart would ever send the Accounting-Stop.
+	am.persistActiveSession(session)
+
 	if err := am.client.SendAccounting(ctx, req); err != nil {
 		// Queue for retry
 		am.queuePendingRecord(req)
@@ -290,9 +295,6 @@ func (am *AccountingManager) StartSession(session *AccountingSession) error {
 			zap.Error(err),
 		)
 	}
-
-	// Persist session for crash recovery
-	am.persistActiveSession(session)
 
 	am.logger.Info("Accounting started for session",
 		zap.String("session_id", session.SessionID),
